@@ -24,7 +24,21 @@ UNITS["C04"] = [
     dict(test="TestC04_Agreement", quick=dict(checks=2500, shards=4), thorough=dict(checks=50000, shards=16)),
 ]
 
+UNITS["C02"] = [
+    dict(test="TestC02_Families", quick=dict(), thorough=dict()),
+    dict(test="TestC02_AllPairs", quick=dict(), thorough=dict()),
+    dict(test="TestC02_Random", quick=dict(checks=2500, shards=2), thorough=dict(checks=50000, shards=12)),
+]
+
+UNITS["C11"] = [
+    dict(test="TestC11_Structure", quick=dict(), thorough=dict()),
+    dict(test="TestC11_InFamily", quick=dict(), thorough=dict()),
+    dict(test="TestC11_CrossFamily", quick=dict(), thorough=dict()),
+]
+
 RULES = {
+    "C02": "single-term matching: Satisfies(a,{b}) vs the documented version / + / exception / reference rules read against the shipped family table",
+    "C11": "'+' reaches exactly the later versions of the same family in natural version order; the family table is well-formed",
     "C04": "one notion of validity: ValidateLicenses / ExtractLicenses / Satisfies agree on which strings are valid and return errors exactly for invalid input",
     "C05": "the accepted language equals the documented grammar: ValidateLicenses verdict vs a reference recogniser over generated token sequences",
     "C03": "no argument makes ValidateLicenses / Satisfies / ExtractLicenses panic (recover() around every call)",
